@@ -2,11 +2,11 @@
    as written, parametric in the statement parser [ps] (what parseStatement does from a cursor position: the
    harness records exactly this table from the real parser for every input it runs).
      parse strict   : Parser.Parse and Parser.ParseWithPositions (same loop; strict-mode checks)
-     parse_ctx      : Parser.ParseContext with a context that never fires (no strict-mode checks)
+     parse_ctx      : Parser.ParseContext with a context that never fires (a separate copy of the loop)
      recover        : Parser.parseWithRecovery (forced advance + synchronize)
      multi          : the batch loop of gosqlx.ParseMultiple / ValidateMultiple
    Token classes are only consulted for positions < ntok, as the Go loops do (cursor bound checked first). *)
-From Coq Require Import List Arith Bool.
+From Coq Require Import List Arith Bool NArith.
 Import ListNotations.
 Local Open Scope nat_scope.
 
@@ -15,13 +15,13 @@ Section L.
   Variable ntok : nat.                              (* len(tokens) *)
   Variable is_eof is_semi starts_stmt : nat -> bool. (* class of tokens[pos] *)
 
-  Inductive sres := SOk (t : tree) (p' : nat) | SErr (code : nat) (p' : nat).
+  Inductive sres := SOk (t : tree) (p' : nat) | SErr (code : N) (p' : nat).
   Variable ps : nat -> sres.                         (* parseStatement from cursor pos: result and cursor afterwards *)
 
-  Inductive pres := POk (ts : list tree) | PErr (code : nat) | PFuel.
+  Inductive pres := POk (ts : list tree) | PErr (code : N) | PFuel.
 
-  Definition E_EMPTY := 2005.   (* IncompleteStatement: no statement at all *)
-  Definition E_STRICT := 2004.  (* InvalidSyntax: empty statement in strict mode *)
+  Definition E_EMPTY : N := 2005%N.   (* IncompleteStatement: no statement at all *)
+  Definition E_STRICT : N := 2004%N.  (* InvalidSyntax: empty statement in strict mode *)
 
   Definition in_range (pos : nat) : bool := (pos <? ntok) && negb (is_eof pos).
   Definition skip_semi (p : nat) : nat := if (p <? ntok) && is_semi p then S p else p.
@@ -44,19 +44,20 @@ Section L.
              end
     end.
 
-  (* Parser.ParseContext, context never done: a separate copy of the loop, without the strict checks *)
-  Fixpoint parse_ctx (fuel pos : nat) (acc : list tree) : pres :=
+  (* Parser.ParseContext, context never done: a separate copy of the loop *)
+  Fixpoint parse_ctx (strict : bool) (fuel pos : nat) (acc : list tree) : pres :=
     match fuel with
     | O => PFuel
     | S f =>
         if in_range pos then
-          if is_semi pos then parse_ctx f (S pos) acc
+          if is_semi pos then
+            if strict then PErr E_STRICT else parse_ctx strict f (S pos) acc
           else match ps pos with
                | SErr c _ => PErr c
-               | SOk t p' => parse_ctx f (skip_semi p') (acc ++ [t])
+               | SOk t p' => parse_ctx strict f (skip_semi p') (acc ++ [t])
                end
         else match acc with
-             | [] => PErr E_EMPTY
+             | [] => if strict then PErr E_STRICT else PErr E_EMPTY
              | _ => POk acc
              end
     end.
@@ -73,20 +74,28 @@ Section L.
         else pos
     end.
 
-  Inductive rres := ROk (ts : list tree) (errs : list (nat * nat)) | RFuel.   (* errors: (token index, code) *)
+  Inductive rres := ROk (ts : list tree) (errs : list (nat * N)) | RFuel.   (* errors: (token index, code) *)
 
-  (* Parser.parseWithRecovery *)
-  Fixpoint recover (fuel pos : nat) (acc : list tree) (errs : list (nat * nat)) : rres :=
+  (* Parser.parseWithRecovery.  [unterm] is the cursor position right after the most recent statement when no
+     semicolon followed it: a statement directly followed by tokens that cannot start a statement is only the
+     well-formed prefix of a malformed statement and is dropped again when the next parseStatement fails there. *)
+  Fixpoint recover (fuel pos : nat) (acc : list tree) (errs : list (nat * N)) (unterm : option nat) : rres :=
     match fuel with
     | O => RFuel
     | S f =>
         if in_range pos then
-          if is_semi pos then recover f (S pos) acc errs
+          if is_semi pos then recover f (S pos) acc errs unterm
           else match ps pos with
                | SErr c p' =>
+                   let acc1 := match unterm with
+                               | Some u => if (u =? pos) && negb (starts_stmt pos) then removelast acc else acc
+                               | None => acc
+                               end in
                    let p1 := if p' =? pos then S pos else p' in
-                   recover f (sync ntok p1) acc (errs ++ [(pos, c)])
-               | SOk t p' => recover f (skip_semi p') (acc ++ [t]) errs
+                   recover f (sync ntok p1) acc1 (errs ++ [(pos, c)]) unterm
+               | SOk t p' =>
+                   recover f (skip_semi p') (acc ++ [t]) errs
+                           (if (p' <? ntok) && is_semi p' then unterm else Some p')
                end
         else ROk acc errs
     end.
@@ -100,7 +109,7 @@ Arguments ROk {tree}. Arguments RFuel {tree}.
 Section Batch.
   Variables Q T : Type.
   Variable one : Q -> pres T.                      (* what the single call returns for a query *)
-  Inductive mres := MOk (rs : list (list T)) | MErr (index code : nat) | MFuelQ (index : nat).
+  Inductive mres := MOk (rs : list (list T)) | MErr (index : nat) (code : N) | MFuelQ (index : nat).
   Fixpoint multi (i : nat) (qs : list Q) (acc : list (list T)) : mres :=
     match qs with
     | [] => MOk acc
@@ -115,18 +124,64 @@ Arguments MOk {T}. Arguments MErr {T}. Arguments MFuelQ {T}.
 
 (* ---- concrete instance used by the correspondence cases: classes and ps given as tables ---- *)
 Definition kind_at (kinds : list nat) (p : nat) : nat := nth p kinds 0.   (* 1 eof, 2 semicolon, 3 statement keyword *)
-Definition tbl_ps (tbl : list (sres nat)) (p : nat) : sres nat := nth p tbl (SErr 0 p).
+Definition tbl_ps (tbl : list (sres nat)) (p : nat) : sres nat := nth p tbl (SErr 0%N p).
 
 Definition run_parse (strict : bool) (kinds : list nat) (tbl : list (sres nat)) : pres nat :=
   let n := length kinds in
   parse nat n (fun p => kind_at kinds p =? 1) (fun p => kind_at kinds p =? 2) (tbl_ps tbl) strict (S n) 0 [].
-Definition run_parse_ctx (kinds : list nat) (tbl : list (sres nat)) : pres nat :=
+Definition run_parse_ctx (strict : bool) (kinds : list nat) (tbl : list (sres nat)) : pres nat :=
   let n := length kinds in
-  parse_ctx nat n (fun p => kind_at kinds p =? 1) (fun p => kind_at kinds p =? 2) (tbl_ps tbl) (S n) 0 [].
+  parse_ctx nat n (fun p => kind_at kinds p =? 1) (fun p => kind_at kinds p =? 2) (tbl_ps tbl) strict (S n) 0 [].
 Definition run_recover (kinds : list nat) (tbl : list (sres nat)) : rres nat :=
   let n := length kinds in
   recover nat n (fun p => kind_at kinds p =? 1) (fun p => kind_at kinds p =? 2) (fun p => kind_at kinds p =? 3)
-          (tbl_ps tbl) (S n) 0 [] [].
+          (tbl_ps tbl) (S n) 0 [] [] None.
 Definition run_sync (kinds : list nat) (p : nat) : nat :=
   let n := length kinds in
   sync n (fun p => kind_at kinds p =? 1) (fun p => kind_at kinds p =? 2) (fun p => kind_at kinds p =? 3) n p.
+
+(* ---- comparison of the model with recorded implementation results (used by the generated cases files) ---- *)
+Definition lnat_eqb (a b : list nat) : bool := if list_eq_dec Nat.eq_dec a b then true else false.
+Definition pres_eqb (a b : pres nat) : bool :=
+  match a, b with
+  | POk x, POk y => lnat_eqb x y
+  | PErr c, PErr d => N.eqb c d
+  | PFuel, PFuel => true
+  | _, _ => false
+  end.
+Definition pair_eqb (a b : nat * N) : bool := (fst a =? fst b) && N.eqb (snd a) (snd b).
+Fixpoint lpair_eqb (a b : list (nat * N)) : bool :=
+  match a, b with
+  | [], [] => true
+  | x :: r, y :: r' => pair_eqb x y && lpair_eqb r r'
+  | _, _ => false
+  end.
+Definition rres_eqb (a b : rres nat) : bool :=
+  match a, b with
+  | ROk x e, ROk y e' => lnat_eqb x y && lpair_eqb e e'
+  | RFuel, RFuel => true
+  | _, _ => false
+  end.
+
+(* one recorded case: token classes, the recorded statement-parser table, and what the real entry points
+   returned: Parse, Parse(strict), ParseContext, ParseContext(strict), parseWithRecovery, synchronize from every position *)
+Record lcase := mk_lcase {
+  lc_kinds : list nat; lc_tbl : list (sres nat);
+  lc_parse : pres nat; lc_strict : pres nat; lc_ctx : pres nat; lc_ctx_strict : pres nat;
+  lc_rec : rres nat; lc_sync : list nat }.
+
+(* bit mask of the components on which model and implementation differ (0 = full agreement) *)
+Definition lcase_diff (c : lcase) : nat :=
+  let k := lc_kinds c in let t := lc_tbl c in
+  (if pres_eqb (run_parse false k t) (lc_parse c) then 0 else 1) +
+  (if pres_eqb (run_parse true k t) (lc_strict c) then 0 else 2) +
+  (if pres_eqb (run_parse_ctx false k t) (lc_ctx c) then 0 else 4) +
+  (if pres_eqb (run_parse_ctx true k t) (lc_ctx_strict c) then 0 else 8) +
+  (if rres_eqb (run_recover k t) (lc_rec c) then 0 else 16) +
+  (if lnat_eqb (map (run_sync k) (seq 0 (length k))) (lc_sync c) then 0 else 32).
+
+Fixpoint diffs_from (i : nat) (cs : list lcase) : list (nat * nat) :=
+  match cs with
+  | [] => []
+  | c :: r => let d := lcase_diff c in if d =? 0 then diffs_from (S i) r else (i, d) :: diffs_from (S i) r
+  end.
